@@ -13,7 +13,9 @@ import (
 	"io"
 	"net"
 	"os"
+	"runtime"
 	"strings"
+	"sync"
 	"time"
 
 	"google.golang.org/grpc"
@@ -478,8 +480,126 @@ func main() {
 	writerCases(r, n/4)
 	writerBigCases(r)
 	endToEnd(r)
+	sequentialStreams(r)
 	for k, v := range stats {
 		note("stat %s %d", k, v)
 	}
 	out.Flush()
+}
+
+// --- several streams, one after another, to ONE StreamServer: every second stream is abandoned by
+// the server-side handler in the middle of a chunk (the handler returns after consuming a prefix
+// of it, as a receiver does on a decode error or when its consumer says "try again later"). The
+// reader of every stream must observe exactly the bytes written to THAT stream: nothing of a
+// previous stream may survive in whatever the server keeps between streams.
+func sequentialStreams(r *rng.R) {
+	note("case e2e-sequential-streams")
+	defer runtime.GOMAXPROCS(runtime.GOMAXPROCS(1)) // keeps per-P caches (sync.Pool) predictable
+	lis, err := net.Listen("tcp", "127.0.0.1:0")
+	if err != nil {
+		note("note e2e-sequential-streams skipped: %v", err)
+		return
+	}
+	schema, _ := otelstef.MetricsWireSchema()
+	type result struct {
+		got []byte
+	}
+	resCh := make(chan result, 1)
+	var mu sync.Mutex
+	abandonAfter := -1
+	srv := stefgrpc.NewStreamServer(stefgrpc.ServerSettings{
+		ServerSchema: &schema,
+		Callbacks: stefgrpc.Callbacks{OnStream: func(reader stefgrpc.GrpcReader, stream stefgrpc.STEFStream) error {
+			mu.Lock()
+			limit := abandonAfter
+			mu.Unlock()
+			var all []byte
+			buf := make([]byte, 11)
+			for {
+				if limit >= 0 && len(all) >= limit {
+					resCh <- result{all}
+					return fmt.Errorf("try again later")
+				}
+				b := buf
+				if limit >= 0 && limit-len(all) < len(b) {
+					b = b[:limit-len(all)]
+				}
+				n, err := reader.Read(b)
+				all = append(all, b[:n]...)
+				if err != nil {
+					resCh <- result{all}
+					return nil
+				}
+			}
+		}},
+	})
+	gs := grpc.NewServer()
+	stef_proto.RegisterSTEFDestinationServer(gs, srv)
+	go gs.Serve(lis)
+	defer gs.Stop()
+	conn, err := grpc.NewClient(lis.Addr().String(), grpc.WithTransportCredentials(insecure.NewCredentials()))
+	if err != nil {
+		propFail("C15 e2e-dial %v", err)
+		return
+	}
+	defer conn.Close()
+	rounds := 8
+	for k := 0; k < rounds; k++ {
+		abandon := k%2 == 0
+		// chunks of this stream: distinct bytes per stream
+		var chunks [][]byte
+		for j := 0; j < 2+r.Intn(3); j++ {
+			c := make([]byte, 20+r.Intn(60))
+			for x := range c {
+				c[x] = byte(k*31 + j*7 + x)
+			}
+			chunks = append(chunks, c)
+		}
+		var want []byte
+		for _, c := range chunks {
+			want = append(want, c...)
+		}
+		mu.Lock()
+		abandonAfter = -1
+		if abandon {
+			abandonAfter = len(chunks[0]) + 3 + r.Intn(len(chunks[1])-6) // inside the second chunk
+		}
+		limit := abandonAfter
+		mu.Unlock()
+		cl, err := stefgrpc.NewClient(stefgrpc.ClientSettings{
+			GrpcClient:   stef_proto.NewSTEFDestinationClient(conn),
+			ClientSchema: stefgrpc.ClientSchema{RootStructName: "Metrics", WireSchema: &schema},
+			Callbacks:    stefgrpc.ClientCallbacks{OnAck: func(uint64) error { return nil }},
+		})
+		if err != nil {
+			propFail("C15 e2e-client %v", err)
+			return
+		}
+		cw, _, err := cl.Connect(context.Background())
+		if err != nil {
+			propFail("C15 e2e-connect stream %d: %v", k, err)
+			return
+		}
+		for _, c := range chunks {
+			cw.WriteChunk(c[:5], c[5:]) // errors after the handler left are expected on abandoned streams
+		}
+		time.Sleep(30 * time.Millisecond)
+		cl.Disconnect(context.Background())
+		select {
+		case res := <-resCh:
+			exp := want
+			if abandon {
+				exp = want[:limit]
+			}
+			stats["sequential-streams"]++
+			if !bytes.Equal(res.got, exp) {
+				propFail("C15 stream-sees-foreign-bytes stream %d of %d to one server (previous stream abandoned mid-chunk: %v): reader observed %s, this stream's chunks are %s", k+1, rounds, k > 0 && !abandon, hx(res.got), hx(exp))
+				return
+			}
+		case <-time.After(10 * time.Second):
+			propFail("C15 e2e-timeout stream %d: server handler did not finish", k)
+			return
+		}
+	}
+	note("nontrivial %x", uint64(rounds))
 }
